@@ -274,4 +274,3 @@ func uniq(s []string) []string {
 	}
 	return out
 }
-
